@@ -143,6 +143,18 @@ FailsBuild(e) ==
            whys == {bad(e.cases[i]) : i \in 1..Len(e.cases)} \ {""}
        IN IF whys = {} THEN <<>> ELSE <<CHOOSE w \in whys : TRUE>>
 
+\* what the caller hands over as destination (pointer chains, non-structs, structs with embedded structs): either
+\* the construction fails or all stores stay inside the destination and leave a value of its own type
+FailsDest(e) ==
+  IF e.buildpanic # "" THEN <<"construction / read panicked for this destination: " \o e.buildpanic>>
+  ELSE IF ~e.built THEN <<>>
+  ELSE Chk(e.rout # "panic", "decode panicked")
+       \o Chk(e.canary, "memory next to the destination was modified (the destination's type was not checked when the decoder was built)")
+       \o Chk(e.untouched, "fields of the destination that the schema does not name were modified")
+       \o (IF e.judgeValue /\ e.rout = "ok"
+            THEN LET r == Dec(e.schema, e.bytes, 1) IN Chk(r.ok /\ Rep(e.schema, r.d, e.value, FALSE, "r"), "the destination does not hold the decoded record")
+            ELSE <<>>)
+
 \* ------------------------------- C11 -----------------------------------
 \* values projected inside the callback after a forced collection + heap churn, and again after the whole
 \* read and further collections, must still be what was written
@@ -190,6 +202,7 @@ Fails(e) == CASE e.op = "vec_read" -> FailsVec(e) \o FailsLefts(e)
               [] e.op = "gc_write" -> FailsGCWrite(e)
               [] e.op = "gc_crash" -> <<"the process crashed while decoding / encoding under garbage collection (case open: " \o e.open \o ")">>
               [] e.op = "build_decode" -> FailsBuild(e)
+              [] e.op = "dest_decode" -> FailsDest(e)
               [] e.op = "time_parse" -> FailsTimeParse(e)
               [] e.op = "time_roundtrip" -> FailsTimeRoundTrip(e)
               [] e.op = "cs_roundtrip" -> FailsCS(e)
